@@ -106,7 +106,7 @@ func c18Conf(c *fw.Case) (o fw.Outcome) {
 	// strings made of characters that shells, environment expansion, printf-style formatting and YAML itself treat
 	// specially: a configuration VALUE is data, whatever it looks like (the file is written with proper YAML quoting)
 	if r.Intn(2) == 0 {
-		toks := []string{"$A", "${HOME}", "$1", "$$", "$HOME", "${}", "%s", "%d", "%%", "%!", "~", "#x", " #y", ": ", "{a}", "[b]", "*c", "&d", "!e", "|", ">", "@", "`id`", "\\n", "\\x41", "''", "\"", "<<", "?", "-", "null", "0x10", "1e3", "007", "gNB"}
+		toks := []string{"$A", "${HOME}", "${VERIF_SITE}", "$VERIF_SITE", "$1", "$$", "$HOME", "${}", "%s", "%d", "%%", "%!", "~", "#x", " #y", ": ", "{a}", "[b]", "*c", "&d", "!e", "|", ">", "@", "`id`", "\\n", "\\x41", "''", "\"", "<<", "?", "-", "null", "0x10", "1e3", "007", "gNB"}
 		name := ""
 		for i, n := 0, 1+r.Intn(4); i < n; i++ {
 			name += toks[r.Intn(len(toks))]
@@ -216,6 +216,7 @@ func c18Conf(c *fw.Case) (o fw.Outcome) {
 	cmd := exec.CommandContext(ctx, exe, "conf")
 	cmd.WaitDelay = 5 * time.Second
 	cmd.Dir = dir
+	cmd.Env = append(os.Environ(), "VERIF_SITE=madrid") // a variable that IS set, whatever the environment of the run: see toks
 	var out bytes.Buffer
 	cmd.Stdout = &out
 	if err := cmd.Run(); err != nil {
